@@ -92,6 +92,12 @@ func c20Strings(c *ctx) []string {
 		}
 		add(string(b))
 	}
+	// the longest digest an unknown hash name may have, and one digit either side of every boundary (even and odd counts)
+	for _, name := range []string{"foo", "perma", "fakeref", "testref", "sha2"} {
+		for nd := 250; nd <= 262; nd++ {
+			add(name + "-" + strings.Repeat("a7", nd/2) + strings.Repeat("c", nd%2))
+		}
+	}
 	// valid refs and structured mutations
 	names := []string{"sha1", "sha224", "sha256", "sha2", "sha225", "sha", "fakeref", "testref", "perma", "foo", "md5", "x9", "Sha1", "sha-1", "", "sha224x"}
 	sizes := map[string]int{"sha1": 20, "sha224": 28, "sha256": 32}
@@ -146,6 +152,10 @@ func runC20(c *ctx) {
 	var refs []blob.Ref
 	var refStr []string
 	for _, s := range strs {
+		if tri(func() bool { blob.Parse(s); blob.ParseKnown(s); blob.ParseBytes([]byte(s)); return true }) == 2 {
+			c.violation(-1, "c20-parse-panics", fmt.Sprintf("parsing %q panics (a string that is not a well-formed ref is to be rejected)", s), nil)
+			continue
+		}
 		r, ok := blob.Parse(s)
 		_, okKnown := blob.ParseKnown(s)
 		rb, okb := blob.ParseBytes([]byte(s))
